@@ -602,7 +602,8 @@ def replay(cases, workers=16, chunk=200):
         return [r for ch in chunks for r in _worker(ch)]
     ctx = get_context("fork")
     with ctx.Pool(processes=min(workers, len(chunks)), maxtasksperchild=10) as pool:
-        res = pool.map(_worker, chunks)
+        # a chunk of 200 cases takes a second or two; an evaluation that does not terminate must not hang the check
+        res = pool.map_async(_worker, chunks).get(timeout=int(os.environ.get("VERIF_REPLAY_TIMEOUT", "1800")))
     return [r for ch in res for r in ch]
 
 
